@@ -5,8 +5,9 @@
   CoreState.resOK) on every state dumped from the real core.
 -/
 import YkProofs.Reserve
+import YkProofs.Core2ResRun
 namespace Yk.C09
-open Yk Yk.RState
+open Yk Yk.RState Yk.Core
 
 def run (ops : List ROp) : RState := ops.foldl RState.step {}
 
@@ -43,5 +44,124 @@ theorem unreserve_removes_everywhere (ops : List ROp) (a key node : String) :
 example : ("n", "k") ∈ ((run [.reserve "a" "k" "n"]).unreserve "b" "k" "n").node := by decide
 
 example : (run [.reserve "app-1" "k1" "n1", .reserve "app-2" "k2" "n1", .markRequired "k3", .reserve "app-1" "k3" "n2"]).app.length = 2 := by decide
+
+/-! ### the same clauses on the stepped Core model (YkModel/CoreOps*.lean, compared with the real core at every step)
+
+`ResInv s` (YkProofs/Core2Res.lean) states the clauses R1–R5 of the monitor `Core.resOK` in inductive form: every
+reservation of a live application (ask key ↦ node) is listed by that registered node (`appNode`) and is for an outstanding
+ask of the application (`outstanding`), at most one per ask (`onePerAsk`); every key a node lists is a reservation of a live
+application (`nodeApp`; the lists are Go maps: `nodeKeys`, `owner`); every queue with the application's path counts exactly
+its reservations (`queueCount`, `queueKeys`, `queueApp`); the partition counter is at least the number of reservations
+(`counter`: never zero while one exists); a node lists at most one reservation unless all of them are for asks of live
+applications that require this node (`nodeExcl`); an application that is Failing / Completing holds none (`quiet`).
+`CoreInv s` = `CoreWF ∧ Books ∧ Linked ∧ LifeInv`.  Side conditions of a history: `RunLifeOK` (`Op.ok2`, `Op.okLife` of every
+step) and `RunResOK` (`Op.okRes`): `reserve` is called as partition.reserve is (`ReserveOK`: outstanding ask without
+reservation of an application that is not Failing / Completing, registered node that is free or shared by required-node asks
+only), the ask a `schedAlloc` / `swapStart` binds holds no reservation any more (`NotReserved`: partition.allocate unreserves
+first — the driver emits `unreserve` before the bind), a new application / dynamic queue starts without reservations.
+The reservation fields of the model are compared with the implementation's on every scheduling line (`resvAgree`), and the
+executable forms `resInvb`, `Op.okResb` held on every state / step of the sampled real histories (~100 000 lines). -/
+
+/-- The reservation invariant holds along every history of the stepped model. -/
+theorem reachable_resinv (s : Core) (ops : List Op) (hi : CoreInv s) (hr : ResInv s) (hok : RunLifeOK s ops)
+    (hres : RunResOK s ops) : ResInv (Yk.run s ops) :=
+  (Yk.reachable_resinv s ops hi hr hok hres).2
+
+/-- … one step -/
+theorem resinv_step (s : Core) (op : Op) (hi : CoreInv s) (hr : ResInv s) (hok : op.ok2 s) (hor : op.okRes s) :
+    ResInv (op.apply s) :=
+  step_res s op hi hr hok hor
+
+/-- The invariant implies everything the monitor checks on the real dumps: `Core.resOK` reports nothing. -/
+theorem resinv_implies_monitor (s : Core) (hw : CoreWF s) (h : ResInv s) : s.resOK = none :=
+  resInv_resOK s hw h
+
+/-- An ask holds at most one reservation and only while it is outstanding; the three views describe the same set and the
+    counter is not zero while a reservation exists; a node carries at most one reservation unless all are for asks that
+    require it — in every reachable state. -/
+theorem clauses_along_histories (s : Core) (ops : List Op) (hi : CoreInv s) (hr : ResInv s) (hok : RunLifeOK s ops)
+    (hres : RunResOK s ops) :
+    let t := Yk.run s ops
+    (∀ a ∈ t.apps, a.live = true → (a.reservations.map (·.1)).Nodup ∧
+      ∀ r ∈ a.reservations, (∃ i ∈ a.items, i.key = r.1 ∧ i.outstanding = true) ∧
+        ∃ n, t.findNode r.2 = some n ∧ r.1 ∈ n.reservations) ∧
+    (∀ n ∈ t.nodes, ∀ k ∈ n.reservations, ∃ a ∈ t.apps, a.live = true ∧ (k, n.id) ∈ a.reservations) ∧
+    (resvTotal t ≤ t.reservations) ∧
+    (∀ n ∈ t.nodes, n.reservations.length ≤ 1 ∨
+      ∀ k ∈ n.reservations, ∃ a ∈ t.apps, a.live = true ∧ (k, n.id) ∈ a.reservations ∧ ∃ i ∈ a.items, i.key = k ∧ i.reqNode = n.id) :=
+  let r := (Yk.reachable_resinv s ops hi hr hok hres).2
+  ⟨fun a ha hl => ⟨r.onePerAsk a ha hl, fun x hx => ⟨r.outstanding a ha hl x hx, r.appNode a ha hl x hx⟩⟩, r.nodeApp, r.counter, r.nodeExcl⟩
+
+/-! ### reservations disappear -/
+
+/-- … when the ask is allocated: partition.allocate unreserves (`unreserve`) before it binds — afterwards no view holds the
+    reservation and the counter dropped by one. -/
+theorem gone_when_allocated (s : Core) (app key node : String) (a : CApp) (h : ResInv s)
+    (ha : s.findApp app = some a) (hr : (key, node) ∈ a.reservations) :
+    (∃ a', (s.unreserve app key node).findApp app = some a' ∧ (∀ r ∈ a'.reservations, r.1 ≠ key) ∧
+       a'.reservations.length + 1 = a.reservations.length) ∧
+    (∀ n' ∈ (s.unreserve app key node).nodes, n'.id = node → key ∉ n'.reservations) ∧
+    (∀ q' ∈ (s.unreserve app key node).queues, q'.path = a.queue →
+       q'.reserved.lookup app = if a.reservations.length ≤ 1 then none else some (a.reservations.length - 1)) ∧
+    (s.unreserve app key node).reservations + 1 = s.reservations :=
+  let ⟨⟨a', h1, _, h3, h4⟩, h5, h6, h7⟩ := unreserve_gone s app key node a h ha hr
+  ⟨⟨a', h1, h3, h4⟩, h5, h6, h7⟩
+
+/-- … when the ask is removed (a release of the key that is not a TIMEOUT confirmation): the application holds no
+    reservation for the key and the node that listed it does not any more.  (The partition counter is NOT decremented on
+    this path — partition.removeAllocation ignores the count RemoveAllocationAsk returns; the counter stays ≥ the number of
+    reservations, which is all the property asks.) -/
+theorem gone_when_ask_removed (s : Core) (tt : TermType) (app key : String) (hw : CoreWF s) (h : ResInv s) (htt : tt ≠ .timeout) :
+    (∀ a', (s.releaseKeyT tt app key).findApp app = some a' → ∀ r ∈ a'.reservations, r.1 ≠ key) ∧
+    (∀ a, s.findApp app = some a → ∀ nd, (key, nd) ∈ a.reservations →
+       ∀ n' ∈ (s.releaseKeyT tt app key).nodes, n'.id = nd → key ∉ n'.reservations) :=
+  releaseKeyT_gone s tt app key hw h htt
+
+/-- … when the application is removed, or all its allocations and asks are released: no node lists a reservation of it,
+    a queue entry for it that remains counts 0, the application is gone resp. holds none. -/
+theorem gone_when_application_removed (s : Core) (app : String) (a : CApp) (h : ResInv s) (ha : s.findApp app = some a) :
+    (∀ n' ∈ (s.appRemove app).nodes, ∀ k ∈ n'.reservations, (k, n'.id) ∉ a.reservations) ∧
+    (∀ q' ∈ (s.appRemove app).queues, q'.path = a.queue → ∀ e ∈ q'.reserved, e.1 = app → e.2 = 0) ∧
+    (s.appRemove app).findApp app = none :=
+  let ⟨h1, h2, h3⟩ := appRemove_gone s app a h ha
+  ⟨h1, fun q' hq hp e he hk => (h2 q' hq hp e he hk).1, h3⟩
+
+theorem gone_when_application_released (s : Core) (tt : TermType) (app : String) (a : CApp) (hw : CoreWF s) (h : ResInv s)
+    (ha : s.findApp app = some a) (htt : tt ≠ .timeout) (hreq : a.items.any (·.inReq) = true) :
+    (∀ a', (s.releaseApp tt app).findApp app = some a' → a'.reservations = []) ∧
+    (∀ n' ∈ (s.releaseApp tt app).nodes, ∀ k ∈ n'.reservations, (k, n'.id) ∉ a.reservations) :=
+  let ⟨h1, h2, _⟩ := releaseApp_gone s tt app a hw h ha htt hreq; ⟨h1, h2⟩
+
+/-- … when the node is removed: the node is gone and no live application holds a reservation on it. -/
+theorem gone_when_node_removed (s : Core) (id : String) (order : List (String × String)) (hi : CoreInv s) (hr : ResInv s)
+    (hok : NodeRemoveOK s id order) :
+    (s.nodeRemove id order).findNode id = none ∧
+    ∀ a ∈ (s.nodeRemove id order).apps, a.live = true → ∀ r ∈ a.reservations, r.2 ≠ id :=
+  nodeRemove_gone s id order hi hr hok
+
+/-! ### "a node reserved for one ask is not given to another through normal scheduling"
+
+The stepped model has NO decision guard: which ask is bound to which node (`schedAlloc`) and which node is reserved for
+which ask (`reserve`) are read from what the implementation announced, never predicted.  On the model side the clause is
+the side condition `ReserveOK.nodeFree` of `reserve` (it is what makes `nodeExcl` inductive) and it held on every
+`reserve` step of the sampled real histories (`Op.okResb`); that a BIND does not go to a node reserved for another ask is
+checked on the real core by the driver's step clause `C01.bind-node-reserved-for-other` (YkDrv/CoreDrv.lean), and for the
+small machine by `reserved_node_refuses_others` above. -/
+
+/-- non-vacuity: `Example.exOpsR` (YkProofs/Core2ResE.lean) from the empty partition — a node of cpu 4, an ask of cpu 3 is
+    bound, a second one does not fit and the node is reserved for it (all four views list the reservation, counter 1), the
+    first allocation is released, the scheduler unreserves and binds the second ask (all views empty, counter 0), it is
+    released.  Every step meets every side condition; the monitor and the invariant agree on the states. -/
+example : CoreInv Example.ex0 ∧ ResInv Example.ex0 ∧ RunLifeOK Example.ex0 Example.exOpsR ∧ RunResOK Example.ex0 Example.exOpsR ∧
+    (Yk.run Example.ex0 (Example.exOpsR.take 6)).apps.map (·.reservations) = [[("k2", "n1")]] ∧
+    (Yk.run Example.ex0 (Example.exOpsR.take 6)).nodes.map (·.reservations) = [["k2"]] ∧
+    (Yk.run Example.ex0 (Example.exOpsR.take 6)).reservations = 1 ∧
+    (Yk.run Example.ex0 (Example.exOpsR.take 8)).apps.map (·.reservations) = [[]] ∧
+    (Yk.run Example.ex0 (Example.exOpsR.take 8)).reservations = 0 ∧
+    ResInv (Yk.run Example.ex0 Example.exOpsR) ∧ (Yk.run Example.ex0 Example.exOpsR).resOK = none :=
+  ⟨Example.coreInv_ex0, Example.resInv_ex0, Example.exOpsR_life, Example.exOpsR_res, Example.exR6.1, Example.exR6.2.1,
+   Example.exR6.2.2.2, Example.exR8.1, Example.exR8.2.2.2,
+   reachable_resinv _ _ Example.coreInv_ex0 Example.resInv_ex0 Example.exOpsR_life Example.exOpsR_res,
+   Example.exR_end_resOK⟩
 
 end Yk.C09
